@@ -1,5 +1,107 @@
-(* Wire entry points of the C07 model (stub until the model is built). *)
-From Coq Require Import ZArith List.
-From SG Require Import Base.Sx.
+(* Wire entry points of the C07 model (extend-split strategy). *)
+From Coq Require Import ZArith List Bool QArith Qcanon.
+From SG Require Import Base.Sx Base.QcUtil Model.CombiScheme Model.ExtendSplit.
+Import ListNotations.
 Open Scope Z_scope.
-Definition entry_C07 (sub : Z) (a : sx) : sx := sx_err 0.
+
+Definition of_box (b : box) : list sx := [of_LQc (fst b); of_LQc (snd b)].
+
+Definition of_results (b : box) (rs : list (lv * Z * (lv * bool))) : list sx :=
+  map (fun r => Lv (of_box b ++ [of_LZ (fst (fst r)); of_LZ (fst (snd r)); sx_bool (snd (snd r))])) rs.
+
+Definition of_leaf (single : bool) (i : nat) (x : area) : sx :=
+  Lv (of_box (abox x) ++ [Zv (a_coarse x); Zv (a_need x); of_LZ (map Z.of_nat (if single then [i] else a_path x))]).
+
+Definition of_log (l : list (box * (bool * list nat))) : sx :=
+  Lv (map (fun r => Lv (of_box (fst r) ++ [sx_bool (fst (snd r)); of_LZ (map Z.of_nat (snd (snd r)))])) l).
+
+Definition of_assign (asg : list (box * list point)) : sx :=
+  Lv (flat_map (fun r => map (fun p => Lv (of_LQc p :: of_box (fst r))) (snd r)) asg).
+
+(* observation of a state (after evaluate); returns the state with the registered dictionaries *)
+Definition observe (st : state) (pts : list point) (compute : list (box * list (lv * Z * (lv * bool))))
+           (log : list (box * (bool * list nat))) : state * sx :=
+  let '(st', co) := observe_coarsen st in
+  (st', Lv [Zv (st_lmax st);
+            Lv (mapi (of_leaf (st_single st)) 0 (st_objs st));
+            Lv (map (fun g => Lv [of_LZ (fst g); Zv (snd g)]) (the_scheme (st_cp st)));
+            Lv (flat_map (fun r => of_results (fst r) (snd r)) co);
+            of_assign (assign_points (current_tree st) pts);
+            Lv (map (fun b => Lv (of_box b)) (tree_leaves (current_tree st)));
+            Lv (flat_map (fun r => of_results (fst r) (snd r)) compute);
+            of_log log;
+            sx_bool (forallb (fun g => coarsen_assert_ok (st_cp st) (fst g)) (the_scheme (st_cp st)))]).
+
+Definition get_box2 (s e : sx) : option box :=
+  match get_LQc s, get_LQc e with Some s, Some e => Some (s, e) | _, _ => None end.
+
+Definition get_dec (x : sx) : option decision :=
+  match x with
+  | Lv [s; e; ext; dims] =>
+    match get_box2 s e, get_bool ext, get_LZ dims with
+    | Some b, Some ex, Some ds => Some (b, (ex, map Z.to_nat ds))
+    | _, _, _ => None
+    end
+  | _ => None
+  end.
+
+Definition get_ben (x : sx) : option (box * Z) :=
+  match x with
+  | Lv [s; e; Zv k] => match get_box2 s e with Some b => Some (b, k) | None => None end
+  | _ => None
+  end.
+
+Definition get_list {A} (f : sx -> option A) (x : sx) : option (list A) :=
+  match x with Lv l => opt_all (map f l) | _ => None end.
+
+Definition get_step (x : sx) : option (step_input * list point) :=
+  match x with
+  | Lv [decs; bens; pts] =>
+    match get_list get_dec decs, get_list get_ben bens, get_LLQc pts with
+    | Some d, Some b, Some p => Some (mkStep d b, p)
+    | _, _, _ => None
+    end
+  | _ => None
+  end.
+
+Fixpoint run_steps (st : state) (steps : list (step_input * list point)) : list sx :=
+  match steps with
+  | [] => []
+  | (inp, pts) :: r =>
+    let '(st1, log) := refine_round st (si_decs inp) in
+    let '(st2, comp) := evaluate st1 (si_bens inp) in
+    let '(st3, o) := observe st2 pts comp log in
+    o :: run_steps st3 r
+  end.
+
+Definition get_grids (x : sx) : option (list (lv * Z)) :=
+  get_list (fun g => match g with
+                     | Lv [l; Zv c] => match get_LZ l with Some l => Some (l, c) | None => None end
+                     | _ => None end) x.
+
+(* sub 0: ((dim version nrbe auto single lmin lmax a b variant) bens0 pts0 (step ...)) -> (obs0 obs1 ...)
+   sub 1: (d ((levelvec coeff) ...)) -> valid_local_combi
+   sub 2: (dim version lmin lmax coarsening variant) -> local_combi, validity, assert *)
+Definition entry_C07 (sub : Z) (a : sx) : sx :=
+  match sub, a with
+  | 0, Lv [Lv [Zv dim; Zv version; Zv nrbe; auto; single; Zv lmin; Zv lmax; sa; sb; Zv variant]; bens0; pts0; steps] =>
+    match get_bool auto, get_bool single, get_LQc sa, get_LQc sb,
+          get_list get_ben bens0, get_LLQc pts0, get_list get_step steps with
+    | Some au, Some si, Some va, Some vb, Some b0, Some p0, Some sts =>
+      let st0 := init_state (Z.to_nat dim) version nrbe lmin lmax (if variant =? 0 then 1 else lmin) au si va vb in
+      let '(st1, comp) := evaluate st0 b0 in
+      let '(st2, o) := observe st1 p0 comp [] in
+      Lv (o :: run_steps st2 sts)
+    | _, _, _, _, _, _, _ => sx_err 1
+    end
+  | 1, Lv [Zv d; gs] =>
+    match get_grids gs with
+    | Some gs => sx_bool (valid_local_combi (Z.to_nat d) gs)
+    | None => sx_err 2
+    end
+  | 2, Lv [Zv dim; Zv version; Zv lmin; Zv lmax; Zv c; Zv variant] =>
+    let cp := mkCP (Z.to_nat dim) version lmin lmax (if variant =? 0 then 1 else lmin) in
+    let gs := local_combi cp c in
+    Lv [Lv (map (fun g => Lv [of_LZ (fst g); Zv (snd g)]) gs); sx_bool (valid_local_combi (Z.to_nat dim) gs)]
+  | _, _ => sx_err 0
+  end.
